@@ -1,6 +1,8 @@
 package vsys
 
 import (
+	"fmt"
+
 	"golang.org/x/sys/unix"
 )
 
@@ -121,7 +123,7 @@ func (ep *Epoll) collect(k *Kernel, max int) []readyEvent {
 	}
 	// seeded permutation
 	for i := len(cand) - 1; i > 0; i-- {
-		j := k.rng.Intn(i + 1)
+		j := k.Draw(fmt.Sprintf("batch:%d", ep.file.id), i+1)
 		cand[i], cand[j] = cand[j], cand[i]
 	}
 	if len(cand) > max {
